@@ -46,6 +46,27 @@ theorem tsUp_false_of_newer (t : Task) (s : State) (p : Path) (hp : p ∈ srcsNo
     have : maxOf (tsGts t s) < mtimeOf s.files p := foldl_max_lt (tsGts t s) 0 _ hpos hnew
     omega
 
+theorem maxOf_le_append (l r : List Nat) : maxOf l ≤ maxOf (l ++ r) := by
+  unfold maxOf
+  rw [List.foldl_append]
+  exact le_foldl_max r _ _ (Or.inl (Nat.le_refl _))
+
+/-- a check that says "up to date" leaves a state that is up to date (the marker it may have
+created only adds a time to compare with) -/
+theorem tsUp_after_check (t : Task) (now : Nat) (s : State) (h : tsUp t s = true) :
+    tsUp t (tsCheck t false now s).1 = true := by
+  cases hm : aget s.marks (tsKey t) with
+  | some m => rw [tsCheck_upToDate_pure t false now s (by rw [hm]; rfl) (by rw [tsCheck_result]; exact h)]; exact h
+  | none =>
+    rw [tsCheck_upToDate_created t now s hm]
+    rw [tsUp_iff] at h ⊢
+    have hg : tsGts t { s with marks := aset s.marks (tsKey t) now } = tsGts t s ++ [now] := by
+      unfold tsGts; simp [hm]
+    rw [hg]
+    refine ⟨by simp, ?_, h.2.2⟩
+    intro p hp
+    exact Nat.le_trans (h.2.1 p hp) (maxOf_le_append _ _)
+
 /-- effect of the non-dry check of ANY task on the markers -/
 theorem isUpToDate_marks_other (t : Task) (now : Nat) (s : State) (x : Bytes) (hx : Ts t → x ≠ tsKey t) :
     aget (isUpToDate H pr t false now s).1.marks x = aget s.marks x := by
